@@ -59,8 +59,8 @@ inductive SetShape where
   | array (inner : SetShape) (n : Nat)
   /-- `Vec<T>` / `Rest<T>` -/
   | rest (inner : SetShape)
-  /-- derived struct with zero or ≥ 2 fields (a one-field struct is transparent on every side and
-  is written as its field) -/
+  /-- derived struct (any number of fields; only a `#[single_account_set]` newtype wrapper is
+  transparent on every side and is written as its field — `struct_impl/idl.rs`, `single_set_field`) -/
   | struct (paths : List (Option String)) (fields : List SetShape)
   deriving Repr, Inhabited
 
